@@ -185,66 +185,83 @@ def sumOpt (l : List (Option Rat)) : Res Rat :=
 def addRows (σ : SS) (r : Option Nat) (t : Uid) (rows : List (Int × Rat)) : SS :=
   { σ with rows := σ.rows ++ rows.map (fun p => { res := r, day := p.1, task := t, units := p.2 }) }
 
+/-- `if _task.estimate is None … if _task.spent is None …` (schedule.py:280-290, 451-461): leaves get the default
+    estimate / zero spent, summary tasks the sums over their children -/
+def fillEst (env : Env) (t : Uid) (σ : SS) : Res SS := do
+  let info := env.info t
+  let isLeaf := info.children.isEmpty
+  let σ ← (match (σ.f t).est with
+    | some _ => pure σ
+    | none =>
+      if isLeaf then pure (setF σ t (fun g => { g with est := some env.defaultEst }))
+      else do
+        let e ← sumOpt (info.children.map (fun c => (σ.f c).est))
+        pure (setF σ t (fun g => { g with est := some e })))
+  match (σ.f t).spent with
+  | some _ => pure σ
+  | none =>
+    if isLeaf then pure (setF σ t (fun g => { g with spent := some 0 }))
+    else do
+      let e ← sumOpt (info.children.map (fun c => (σ.f c).spent))
+      pure (setF σ t (fun g => { g with spent := some e }))
+
+/-- remaining work as the pass sees it -/
+def leftOf (σ : SS) (t : Uid) : Rat :=
+  let est := ((σ.f t).est).getD 0
+  let sp := ((σ.f t).spent).getD 0
+  if est - sp < 0 then 0 else est - sp
+
+/-- forward: `if _task.start is None` (schedule.py:267-278) -/
+def fwdStart (env : Env) (cal : Cal) (used : Int → Rat) (t : Uid) (maxPred : Time) (σ : SS) : Res SS :=
+  let info := env.info t
+  match (σ.f t).start with
+  | some _ => pure σ
+  | none =>
+    if info.children.isEmpty then do
+      let (nw, σ) := now env σ
+      let s0 := maxT (maxT maxPred nw) (info.minStart.getD epoch)
+      let s ← nearestFwd cal used s0
+      pure (setF σ t (fun g => { g with start := some s }))
+    else
+      let cs := info.children.filterMap (fun c => (σ.f c).start)
+      match cs with
+      | [] => pure (setF σ t (fun g => { g with start := some epoch }))
+      | c :: rest => pure (setF σ t (fun g => { g with start := some (rest.foldl minT c) }))
+
+/-- forward: `if _task.end is None` (schedule.py:292-303); the only place where the forward pass reserves -/
+def fwdEnd (env : Env) (cal : Cal) (used : Int → Rat) (t : Uid) (σ : SS) : Res SS :=
+  let info := env.info t
+  match (σ.f t).end_ with
+  | some _ => pure σ
+  | none =>
+    if info.children.isEmpty then do
+      let st := ((σ.f t).start).getD epoch
+      let (nw, σ) := now env σ
+      let (e, rows) ← shiftFwd cal used (maxT st nw) (leftOf σ t)
+      let σ := addRows σ info.resource t rows
+      let (nw2, σ) := now env σ
+      pure (setF σ t (fun g => { g with end_ := some (maxT (maxT e nw2) st) }))
+    else
+      let ce := info.children.filterMap (fun c => (σ.f c).end_)
+      match ce with
+      | [] => throw (.crash .value)       -- max() of an empty sequence
+      | c :: rest => pure (setF σ t (fun g => { g with end_ := some (rest.foldl maxT c) }))
+
+def markDone (σ : SS) (t : Uid) : SS := { σ with done := σ.done ++ [t] }
+
 /-- the body of `__forward_pass` after predecessors and children have been handled (schedule.py:258-305) -/
 def fwdPlace (env : Env) (σ : SS) (t : Uid) (maxPred : Time) : Res SS := do
   let info := env.info t
   let (res', cal) := resLookup σ.res info.resource
   let σ := { σ with res := res' }
-  let isLeaf := info.children.isEmpty
   if info.milestone then
-    pure ({ (setF σ t (fun _ => { start := some maxPred, end_ := some maxPred, est := some 0, spent := some 0 })) with
-            done := σ.done ++ [t] })
+    pure (markDone (setF σ t (fun _ => { start := some maxPred, end_ := some maxPred, est := some 0, spent := some 0 })) t)
   else do
     let used := usedBy env σ.rows info.resource t
-    -- start
-    let σ ← (match (σ.f t).start with
-      | some _ => pure σ
-      | none =>
-        if isLeaf then do
-          let (nw, σ) := now env σ
-          let s0 := maxT (maxT maxPred nw) (info.minStart.getD epoch)
-          let s ← nearestFwd cal used s0
-          pure (setF σ t (fun g => { g with start := some s }))
-        else
-          let cs := info.children.filterMap (fun c => (σ.f c).start)
-          match cs with
-          | [] => pure (setF σ t (fun g => { g with start := some epoch }))
-          | c :: rest => pure (setF σ t (fun g => { g with start := some (rest.foldl minT c) })))
-    -- estimate / spent
-    let σ ← (match (σ.f t).est with
-      | some _ => pure σ
-      | none =>
-        if isLeaf then pure (setF σ t (fun g => { g with est := some env.defaultEst }))
-        else do
-          let e ← sumOpt (info.children.map (fun c => (σ.f c).est))
-          pure (setF σ t (fun g => { g with est := some e })))
-    let σ ← (match (σ.f t).spent with
-      | some _ => pure σ
-      | none =>
-        if isLeaf then pure (setF σ t (fun g => { g with spent := some 0 }))
-        else do
-          let e ← sumOpt (info.children.map (fun c => (σ.f c).spent))
-          pure (setF σ t (fun g => { g with spent := some e })))
-    -- end
-    let σ ← (match (σ.f t).end_ with
-      | some _ => pure σ
-      | none =>
-        if isLeaf then do
-          let est := ((σ.f t).est).getD 0
-          let sp := ((σ.f t).spent).getD 0
-          let left := if est - sp < 0 then 0 else est - sp
-          let st := ((σ.f t).start).getD epoch
-          let (nw, σ) := now env σ
-          let (e, rows) ← shiftFwd cal used (maxT st nw) left
-          let σ := addRows σ info.resource t rows
-          let (nw2, σ) := now env σ
-          pure (setF σ t (fun g => { g with end_ := some (maxT (maxT e nw2) st) }))
-        else
-          let ce := info.children.filterMap (fun c => (σ.f c).end_)
-          match ce with
-          | [] => throw (.crash .value)       -- max() of an empty sequence
-          | c :: rest => pure (setF σ t (fun g => { g with end_ := some (rest.foldl maxT c) })))
-    pure { σ with done := σ.done ++ [t] }
+    let σ ← fwdStart env cal used t maxPred σ
+    let σ ← fillEst env t σ
+    let σ ← fwdEnd env cal used t σ
+    pure (markDone σ t)
 
 /-- `__forward_pass` (schedule.py:240-305, repaired: identity bookkeeping, no descent into outside tasks).
     `stk` = tasks in progress; meeting one again is Python's unbounded recursion (RecursionError). -/
@@ -261,57 +278,49 @@ def fwdPass (env : Env) : Nat → List Uid → SS → Uid → Time → Res SS
       let σ ← passList (fun σ c => fwdPass env fuel (t :: stk) σ c maxPred) σ info.children
       fwdPlace env σ t maxPred
 
+/-- backward: `if _task.end is None` (schedule.py:439-449) -/
+def bwdEnd (env : Env) (cal : Cal) (used : Int → Rat) (t : Uid) (minDate minSucc : Time) (σ : SS) : Res SS :=
+  let info := env.info t
+  match (σ.f t).end_ with
+  | some _ => pure σ
+  | none =>
+    if info.children.isEmpty then do
+      let e ← nearestBwd cal used minSucc
+      pure (setF σ t (fun g => { g with end_ := some (e + 1) }))
+    else
+      let ce := info.children.filterMap (fun c => (σ.f c).end_)
+      match ce with
+      | [] => pure (setF σ t (fun g => { g with end_ := some minDate }))
+      | c :: rest => pure (setF σ t (fun g => { g with end_ := some (rest.foldl maxT c) }))
+
+/-- backward: the start (schedule.py:463-473); the only place where the backward pass reserves -/
+def bwdStart (env : Env) (cal : Cal) (used : Int → Rat) (t : Uid) (minDate : Time) (σ : SS) : Res SS :=
+  let info := env.info t
+  if info.children.isEmpty then do
+    let en := minT (((σ.f t).end_).getD epoch) minDate
+    let (s, rows) ← shiftBwd cal used en (leftOf σ t)
+    let σ := addRows σ info.resource t rows
+    let s' := match (σ.f t).start with | some old => minT old s | none => s
+    pure (setF σ t (fun g => { g with start := some s' }))
+  else
+    let cs := info.children.filterMap (fun c => (σ.f c).start)
+    match cs with
+    | [] => throw (.crash .value)
+    | c :: rest => pure (setF σ t (fun g => { g with start := some (rest.foldl minT c) }))
+
 /-- body of `__backward_pass` after successors and children (schedule.py:430-475) -/
 def bwdPlace (env : Env) (σ : SS) (t : Uid) (minDate minSucc : Time) : Res SS := do
   let info := env.info t
   let (res', cal) := resLookup σ.res info.resource
   let σ := { σ with res := res' }
-  let isLeaf := info.children.isEmpty
   if info.milestone then
-    pure ({ (setF σ t (fun _ => { start := some minSucc, end_ := some minSucc, est := some 0, spent := some 0 })) with
-            done := σ.done ++ [t] })
+    pure (markDone (setF σ t (fun _ => { start := some minSucc, end_ := some minSucc, est := some 0, spent := some 0 })) t)
   else do
     let used := usedBy env σ.rows info.resource t
-    let σ ← (match (σ.f t).end_ with
-      | some _ => pure σ
-      | none =>
-        if isLeaf then do
-          let e ← nearestBwd cal used minSucc
-          pure (setF σ t (fun g => { g with end_ := some (e + 1) }))
-        else
-          let ce := info.children.filterMap (fun c => (σ.f c).end_)
-          match ce with
-          | [] => pure (setF σ t (fun g => { g with end_ := some minDate }))
-          | c :: rest => pure (setF σ t (fun g => { g with end_ := some (rest.foldl maxT c) })))
-    let σ ← (match (σ.f t).est with
-      | some _ => pure σ
-      | none =>
-        if isLeaf then pure (setF σ t (fun g => { g with est := some env.defaultEst }))
-        else do
-          let e ← sumOpt (info.children.map (fun c => (σ.f c).est))
-          pure (setF σ t (fun g => { g with est := some e })))
-    let σ ← (match (σ.f t).spent with
-      | some _ => pure σ
-      | none =>
-        if isLeaf then pure (setF σ t (fun g => { g with spent := some 0 }))
-        else do
-          let e ← sumOpt (info.children.map (fun c => (σ.f c).spent))
-          pure (setF σ t (fun g => { g with spent := some e })))
-    let σ ← (if isLeaf then do
-        let est := ((σ.f t).est).getD 0
-        let sp := ((σ.f t).spent).getD 0
-        let left := if est - sp < 0 then 0 else est - sp
-        let en := minT (((σ.f t).end_).getD epoch) minDate
-        let (s, rows) ← shiftBwd cal used en left
-        let σ := addRows σ info.resource t rows
-        let s' := match (σ.f t).start with | some old => minT old s | none => s
-        pure (setF σ t (fun g => { g with start := some s' }))
-      else
-        let cs := info.children.filterMap (fun c => (σ.f c).start)
-        match cs with
-        | [] => throw (.crash .value)
-        | c :: rest => pure (setF σ t (fun g => { g with start := some (rest.foldl minT c) })))
-    pure { σ with done := σ.done ++ [t] }
+    let σ ← bwdEnd env cal used t minDate minSucc σ
+    let σ ← fillEst env t σ
+    let σ ← bwdStart env cal used t minDate σ
+    pure (markDone σ t)
 
 def bwdPass (env : Env) : Nat → List Uid → SS → Uid → Time → Res SS
   | 0, _, _, _, _ => throw (.crash .recursion)
